@@ -10,6 +10,8 @@ concurrent evaluations.
 """
 
 import contextlib
+import functools
+import inspect
 import zlib
 from contextvars import ContextVar
 from typing import Any, Dict, List, Optional
@@ -42,9 +44,9 @@ REAL = {
 REF = {v: k for k, v in REAL.items()}
 
 RC_KEYS = [str(k) for k in list(range(1, 13)) + [250, 492, 493, 499, 2000, 2222, 2499]]
-RC_SYNC_KEYS = {"5", "10", "250", "2000"}  # plain `def` methods: exercise the non-coroutine branch of the dispatch
+RC_SYNC_KEYS = {"5", "6", "10", "250", "2000"}  # plain `def` methods: exercise the non-coroutine branch of the dispatch
 FC_KEYS = [str(k) for k in range(901, 1000) if not 931 <= k <= 935]
-FC_SYNC_KEYS = {str(k) for k in range(901, 1000) if k % 7 == 0}
+FC_SYNC_KEYS = {str(k) for k in range(901, 1000) if k % 7 == 0} | {"904"}
 
 
 def hint_text(key: str, world_id: str = "") -> str:
@@ -86,6 +88,7 @@ class World:
         self.shared: Dict[str, Any] = {}
         self.log: List[tuple] = []
         self.anomalies: List[str] = []  # things the user-side code observed that cannot happen if evaluations are kept apart
+        self.contexts_seen: List[tuple] = []  # (key, scope of the EvaluationContext the evaluation method of that key was handed)
 
     def data(self) -> EvaluatableData:
         return EvaluatableData(body=self, edifact_format=FORMAT, edifact_format_version=VERSION)
@@ -143,7 +146,11 @@ def _provide_data():
 
 
 # -------------------------------------------------------------------------------------------------
-class HarnessRcEvaluator(RcEvaluator):
+class HarnessRcEvaluatorOfThePreviousFormatVersion(RcEvaluator):
+    """user evaluators are class hierarchies: the evaluator of a new format version extends the previous one and overrides what changed"""
+
+
+class HarnessRcEvaluator(HarnessRcEvaluatorOfThePreviousFormatVersion):
     edifact_format = FORMAT
     edifact_format_version = VERSION
 
@@ -170,6 +177,7 @@ def _make_rc_method(key: str, is_sync: bool):
             if world is RELEASED:
                 return _used_after_release(key)
             seen = current_world()
+            world.contexts_seen.append((key, getattr(context, "scope", None)))
             world.log.append(("rc", key, world.id, seen.id if seen else None))
             return REAL[world.rc[key]]
 
@@ -187,6 +195,7 @@ def _make_rc_method(key: str, is_sync: bool):
             else:
                 # like a real evaluator that narrows the scope of its evaluation context while it works: the context object handed in
                 # belongs to THIS evaluation of THIS key
+                world.contexts_seen.append((key, getattr(context, "scope", None)))
                 if context is not None:
                     context.scope = f"$.condition[{key}]"
                 await sched.point(("rc", key, world.id))
@@ -224,6 +233,43 @@ for _k in REDEFINED_RC_KEYS:
     setattr(HarnessRcEvaluator, f"evaluate_{_k}", _make_superseded(_k))
 
 
+# keys whose evaluation method exists in the base class as well (the previous format version's rule): the subclass' one counts
+OVERRIDDEN_RC_KEYS = {"2", "7", "2222"}
+
+
+def _make_overridden(key: str):
+    def evaluate(self, evaluatable_data, context):  # pylint:disable=unused-argument
+        world: World = evaluatable_data.body
+        world.anomalies.append(f"the base class' implementation of key {key} was called although the evaluator's own class overrides it")
+        return REAL[_ROTATE[world.rc[key]]]
+
+    evaluate.__name__ = f"evaluate_{key}"
+    return evaluate
+
+
+for _k in OVERRIDDEN_RC_KEYS:
+    setattr(HarnessRcEvaluatorOfThePreviousFormatVersion, f"evaluate_{_k}", _make_overridden(_k))
+
+
+def _audited(method):
+    """a user's decorator (timing, auditing, caching ...) that serves plain and `async def` evaluation methods alike: the wrapper is a
+    coroutine function - and that, the callable the evaluator actually carries, is what decides how the method has to be called"""
+
+    @functools.wraps(method)
+    async def wrapper(self, *args):
+        result = method(self, *args)
+        if inspect.isawaitable(result):
+            result = await result
+        return result
+
+    return wrapper
+
+
+DECORATED_RC_KEYS = {"6", "10", "3"}  # a plain method and an `async def` one
+for _k in DECORATED_RC_KEYS:
+    setattr(HarnessRcEvaluator, f"evaluate_{_k}", _audited(getattr(HarnessRcEvaluator, f"evaluate_{_k}")))
+
+
 def _get_evaluation_method(self, condition_key: str):
     if condition_key in REDEFINED_RC_KEYS:
         return getattr(self, f"current_implementation_of_{condition_key}")
@@ -259,6 +305,10 @@ _CONSTANT_ANSWERS: Dict[tuple, EvaluatedFormatConstraint] = {}
 def _fc_answer(key: str, world: World, text_before: Optional[str]) -> EvaluatedFormatConstraint:
     text_after = text_to_be_evaluated_by_format_constraint.get()
     world.log.append(("fc", key, world.id, text_before, text_after))
+    if world.fc_mode.startswith("text") and int(key) % 3 == 0:
+        # a composite constraint that judges a part of the input by a nested evaluation publishes that part where the nested evaluation
+        # looks for its text, and leaves it there: the evaluation of a key runs in a context of its own, nothing outside can see it
+        text_to_be_evaluated_by_format_constraint.set(f"<text derived by the evaluation of {key} from {text_before!r}>")
     if world.fc_mode == "text-constant-objects":
         # a user evaluator that answers with two long-lived objects per key (fulfilled / not fulfilled, no message of its own) instead of
         # building a new result every time
@@ -299,6 +349,9 @@ def _make_fc_method(key: str, is_sync: bool):
 
 for _k in FC_KEYS:
     setattr(HarnessFcEvaluator, f"evaluate_{_k}", _make_fc_method(_k, _k in FC_SYNC_KEYS))
+DECORATED_FC_KEYS = {"904", "910", "905"}  # a plain method and an `async def` one
+for _k in DECORATED_FC_KEYS:
+    setattr(HarnessFcEvaluator, f"evaluate_{_k}", _audited(getattr(HarnessFcEvaluator, f"evaluate_{_k}")))
 for _name in ("evaluate_901_strict", "evaluate_902_or_903", "evaluate_999b", "re_evaluate_904"):
     setattr(HarnessFcEvaluator, _name, _decoy(_name))
 
@@ -409,13 +462,25 @@ _CER_TLP = None
 NO_PACKAGE_TABLE = object()  # make_cer(packages=NO_PACKAGE_TABLE): the result carries no package table at all (the model's default, None)
 
 
-def make_cer(rc: Dict[str, str], fc: Dict[str, bool], hints: Dict[str, Optional[str]], fc_msg: Optional[Dict[str, Optional[str]]] = None, packages: Optional[Dict[str, str]] = None):
+def make_cer(rc: Dict[str, str], fc: Dict[str, bool], hints: Dict[str, Optional[str]], fc_msg: Optional[Dict[str, Optional[str]]] = None, packages: Optional[Dict[str, str]] = None, fill_in_place: Optional[bool] = None):
     from ahbicht.models.content_evaluation_result import ContentEvaluationResult
 
+    format_constraints = {k: EvaluatedFormatConstraint(format_constraint_fulfilled=v, error_message=(fc_msg or {}).get(k) if not v else None) for k, v in fc.items()}
+    requirement_constraints = {k: REAL[v] for k, v in rc.items()}
+    if fill_in_place is None:
+        fill_in_place = bool(zlib.crc32(",".join(sorted(packages)).encode()) % 2) if packages and packages is not NO_PACKAGE_TABLE else False
+    if packages is not NO_PACKAGE_TABLE and packages and fill_in_place:
+        # the other way of building a result: the package table is filled in afterwards, entry by entry
+        cer = ContentEvaluationResult(hints=dict(hints), format_constraints=format_constraints, requirement_constraints=requirement_constraints)
+        if cer.packages is None:
+            cer.packages = {}
+        for package_key, package_expression in packages.items():
+            cer.packages[package_key] = package_expression
+        return cer
     return ContentEvaluationResult(
         hints=dict(hints),
-        format_constraints={k: EvaluatedFormatConstraint(format_constraint_fulfilled=v, error_message=(fc_msg or {}).get(k) if not v else None) for k, v in fc.items()},
-        requirement_constraints={k: REAL[v] for k, v in rc.items()},
+        format_constraints=format_constraints,
+        requirement_constraints=requirement_constraints,
         packages=None if packages is NO_PACKAGE_TABLE else dict(packages or {}),
     )
 
@@ -442,13 +507,14 @@ def _provide_cer_data() -> EvaluatableData:
     return EvaluatableData(body=body, edifact_format=FORMAT, edifact_format_version=VERSION)
 
 
-def install_hardcoded(cer, data_format=None, data_version=None) -> None:
+def install_hardcoded(cer, data_format=None, data_version=None, logic_format=None) -> None:
     """create_hardcoded_evaluators(cer): Dict based RC / FC evaluators, hints provider and package resolver.
-    data_format / data_version: the message being evaluated is of ANOTHER format / version than the registered logic"""
+    data_format / data_version: the message being evaluated is of ANOTHER format / version than the registered logic;
+    logic_format: the logic is registered for that format instead of the harness' usual one"""
     from ahbicht.content_evaluation.evaluator_factory import create_hardcoded_evaluators
     from ahbicht.content_evaluation.token_logic_provider import SingletonTokenLogicProvider
 
-    evaluators = create_hardcoded_evaluators(cer, edifact_format=FORMAT, edifact_format_version=VERSION)
+    evaluators = create_hardcoded_evaluators(cer, edifact_format=logic_format or FORMAT, edifact_format_version=VERSION)
     fmt, ver = data_format or FORMAT, data_version or VERSION
 
     def configure(binder):
